@@ -185,6 +185,11 @@ type HV struct {
 type Req struct {
 	Method string `json:"method"`
 	Hdr    []HV   `json:"hdr,omitempty"`
+	// Target is the request target: "" means "/", "*" is the asterisk form
+	// (OPTIONS *), anything else an origin-form path with optional query.
+	Target string `json:"target,omitempty"`
+	// Proto is "" (HTTP/1.1), "1.0" or "2".
+	Proto string `json:"proto,omitempty"`
 }
 
 func (r Req) Get(key string) ([]Val, bool) {
@@ -198,7 +203,7 @@ func (r Req) Get(key string) ([]Val, bool) {
 
 // With returns a copy of r in which key is set to vals (appended if absent).
 func (r Req) With(key string, vals ...string) Req {
-	out := Req{Method: r.Method}
+	out := Req{Method: r.Method, Target: r.Target, Proto: r.Proto}
 	done := false
 	for _, h := range r.Hdr {
 		if h.Key == key {
@@ -215,7 +220,7 @@ func (r Req) With(key string, vals ...string) Req {
 }
 
 func (r Req) Without(key string) Req {
-	out := Req{Method: r.Method}
+	out := Req{Method: r.Method, Target: r.Target, Proto: r.Proto}
 	for _, h := range r.Hdr {
 		if h.Key != key {
 			out.Hdr = append(out.Hdr, h)
@@ -237,12 +242,34 @@ func (r Req) HTTP() *http.Request {
 		}
 		h[kv.Key] = vals
 	}
-	return &http.Request{Method: r.Method, URL: rootURL, Header: h, Proto: "HTTP/1.1", ProtoMajor: 1, ProtoMinor: 1, Host: "server.example"}
+	hr := &http.Request{Method: r.Method, URL: rootURL, RequestURI: "/", Header: h, Proto: "HTTP/1.1", ProtoMajor: 1, ProtoMinor: 1, Host: "server.example"}
+	switch r.Target {
+	case "":
+	case "*":
+		hr.URL, hr.RequestURI = &url.URL{Path: "*"}, "*"
+	default:
+		if u, err := url.ParseRequestURI(r.Target); err == nil {
+			hr.URL, hr.RequestURI = u, r.Target
+		}
+	}
+	switch r.Proto {
+	case "1.0":
+		hr.Proto, hr.ProtoMajor, hr.ProtoMinor = "HTTP/1.0", 1, 0
+	case "2":
+		hr.Proto, hr.ProtoMajor, hr.ProtoMinor = "HTTP/2.0", 2, 0
+	}
+	return hr
 }
 
 func (r Req) Brief() string {
 	var b strings.Builder
 	b.WriteString(r.Method)
+	if r.Target != "" {
+		b.WriteString(" target=" + r.Target)
+	}
+	if r.Proto != "" {
+		b.WriteString(" HTTP/" + r.Proto)
+	}
 	for _, h := range r.Hdr {
 		fmt.Fprintf(&b, " %s=%s", h.Key, briefVals(h.Vals))
 	}
